@@ -777,6 +777,31 @@ class Corpus:
         self.res.note("canary_clauses", sorted({v[0] for v in cv}))
 
 
+def run_chunked(res, tag, pid, sdir, designs, size, drive, canaries_n=12, on_chunk=None):
+    """Drive, validate and discard the designs in chunks of `size`, so that the recorded traces of a
+    thorough run never all live in memory at once (a full C01 thorough corpus is > 50 GB of Python
+    objects).  drive(corpus) runs the simulator.  Canaries are derived from the first chunk.  Returns the
+    first chunk's Corpus (for samples) and the number of designs."""
+    first = None
+    for k in range(0, len(designs), size):
+        c = Corpus(res, tag if k == 0 else "%s_%d" % (tag, k // size))
+        c.add(designs[k:k + size])
+        c.load(sdir)
+        drive(c)
+        verdicts = c.validate(pid)
+        if on_chunk:
+            on_chunk(c)
+        if k == 0:
+            c.canaries(verdicts, n=canaries_n)
+            first = c
+        else:
+            c.traces = []
+            c.mod = None
+        import gc
+        gc.collect()
+    return first, len(designs)
+
+
 def model_check(res, maxcyc=1):
     """TLC over ALL interleavings of the spec's own scheduler on the model designs."""
     ds = model_designs()
